@@ -84,7 +84,8 @@ def _fn(sig):
             depth -= 1
         elif depth == 0:
             out.append(ch)
-    return ''.join(out).strip().split(' ')[-1]
+    name = re.sub(r'\s+(const|volatile|&|&&)\s*$', '', ''.join(out).strip())
+    return name.split(' ')[-1]
 
 
 def sanitizer_key(text):
